@@ -8,11 +8,14 @@ import (
 	_ "github.com/bandprotocol/chain/v3/zzverif/props/c05"
 	_ "github.com/bandprotocol/chain/v3/zzverif/props/c06"
 	_ "github.com/bandprotocol/chain/v3/zzverif/props/c07"
+	_ "github.com/bandprotocol/chain/v3/zzverif/props/c08"
 	_ "github.com/bandprotocol/chain/v3/zzverif/props/c09"
 	_ "github.com/bandprotocol/chain/v3/zzverif/props/c10"
 	_ "github.com/bandprotocol/chain/v3/zzverif/props/c11"
 	_ "github.com/bandprotocol/chain/v3/zzverif/props/c12"
 	_ "github.com/bandprotocol/chain/v3/zzverif/props/c13"
+	_ "github.com/bandprotocol/chain/v3/zzverif/props/c14"
+	_ "github.com/bandprotocol/chain/v3/zzverif/props/c15"
 	_ "github.com/bandprotocol/chain/v3/zzverif/props/c16"
 	_ "github.com/bandprotocol/chain/v3/zzverif/props/c17"
 )
